@@ -201,7 +201,9 @@ func checkC06(p *Prog, res *Result, tier string) {
 		// .. and resume exactly after the cached events that were replayed (C05-R1)
 		for _, o := range p.subResult("C05", tier).Obls {
 			// (C05-R16: .. and that are found at their logical positions in the cache)
-			if o.Rule == "C05-R1" || o.Rule == "C05-R16" {
+			// (C05-R4: .. none of which is dropped on the way to the client; C05-R17..R19: found by comparison, by their
+			// own revision, in one snapshot of the cache)
+			if o.Rule == "C05-R1" || o.Rule == "C05-R16" || o.Rule == "C05-R4" || o.Rule == "C05-R17" || o.Rule == "C05-R18" || o.Rule == "C05-R19" {
 				res.add("C06-R7", o.Rule+" "+o.Construct, o.Status, o.Pos, o.Detail)
 			}
 		}
@@ -209,6 +211,13 @@ func checkC06(p *Prog, res *Result, tier string) {
 
 	// ---- R3 ----
 	sub9 := p.subResult("C09", tier)
+	// a compaction runs only where the repair queue is: on the leader, whose Compact keeps below the oldest queued
+	// unknown-outcome write (a follower has no queue and would compact the evidence the repair needs; C18-R1)
+	for _, o := range p.subResult("C18", tier).Obls {
+		if o.Rule == "C18-R1" && strings.Contains(o.Construct, "Compact") {
+			res.add("C06-R3", o.Rule+" "+o.Construct, o.Status, o.Pos, o.Detail)
+		}
+	}
 	for _, o := range sub9.Obls {
 		if o.Rule == "C09-R1" && strings.Contains(o.Construct, "collectStorageWriteEvents") || (o.Rule == "C09-R1" && strings.Contains(o.Construct, "sequencer")) {
 			res.add("C06-R3", o.Rule+" "+o.Construct, o.Status, o.Pos, o.Detail)
